@@ -18,10 +18,25 @@ CHECKS = {
         note=BASE_NOTE + ' bitstring is modelled as list-of-bits operations.'),
 }
 
+def discover():
+    """every harness/props/cxx.py may carry a META dict (text, technique, design, note) -> CHECKS entry"""
+    import importlib
+    d = os.path.join(VERIF, 'harness', 'props')
+    for f in sorted(os.listdir(d)):
+        if f.startswith('c') and f.endswith('.py') and f[1:-3].isdigit():
+            mod = importlib.import_module('harness.props.' + f[:-3])
+            meta = getattr(mod, 'META', None)
+            if meta and meta.get('claimed', True):
+                pid = f[:-3].upper()
+                CHECKS[pid] = dict(text=meta['text'], technique=meta['technique'], design=meta.get('design', '6 ' + pid),
+                                   note=BASE_NOTE + ' ' + meta.get('note', ''))
+
+
 NOT_YET = 'check under construction in this round (DESIGN.md section 8); claimed once its Lean model, theorems and correspondence run'
 
 
 def main():
+    discover()
     props = [json.loads(l)['id'] for l in open(os.path.join(VERIF, 'properties.jsonl'))]
     checks = []
     for pid in props:
